@@ -5238,6 +5238,12 @@ class Data_Ref(SequenceBase):
         :rtype: NoneType or (str, (obj, obj, ...))
 
         """
+        # A single part-ref is not matched here (see below): do not parse it
+        # only to throw the result away, which doubles the work at every
+        # level of a nest of references such as a(b(c(d))).
+        line, _ = string_replace_map(string)
+        if "%" not in line:
+            return None
         # Use SequenceBase as normal, then force no match when there is
         # only one entry in the sequence.
         result = SequenceBase.match(r"%", Part_Ref, string)
